@@ -15,6 +15,7 @@
   per-line function, instantiated for the library by `assembleLine_local`.
 -/
 import AL.Lemmas.LineLocal
+import AL.Lemmas.CallSplit
 import AL.Properties.C13
 namespace AL.Properties.C06
 open AL AL.Impl AL.Gen AL.Lemmas
@@ -47,38 +48,6 @@ theorem concat_call (lfo : LineFnOf) (a : Inst) (text : Str) (hmode : a.mode = .
   have h := asm_layout lfo a text hinv h0 h1 (by intro hm; rw [hmode] at hm; cases hm) hsmall hok
   rw [hmode, C13.plain_layout, (program_code lfo a.opt hl text).1] at h
   exact h
-
-theorem splitEol_split (t1 : Str) (e : Ch) (t2 : Str) (he : eolCh e = true) :
-    splitEol (t1 ++ e :: t2) = splitEol t1 ++ splitEol t2 := by
-  induction t1 with
-  | nil => simp [splitEol, he]
-  | cons c cs ih =>
-    simp only [List.cons_append, splitEol]
-    by_cases hc : eolCh c = true
-    · simp [hc, ih]
-    · simp only [hc, ih]
-      have hne := splitEol_ne_nil cs
-      cases hs : splitEol cs with
-      | nil => exact absurd hs hne
-      | cons l ls => simp
-
-theorem itemsL_append (lf : Str → R LineOut × Nat) (ls1 ls2 : List Str) :
-    itemsL lf (ls1 ++ ls2) =
-      match (itemsL lf ls1).err with
-      | some e => ⟨(itemsL lf ls1).codes, some e⟩
-      | none => ⟨(itemsL lf ls1).codes ++ (itemsL lf ls2).codes, (itemsL lf ls2).err⟩ := by
-  induction ls1 with
-  | nil => simp [itemsL]
-  | cons l ls ih =>
-    simp only [List.cons_append, itemsL]
-    cases hres : (lf l).1 with
-    | error er => simp
-    | ok lo =>
-      cases lo with
-      | skip => simp only [ih]
-      | code bs =>
-        simp only [ih]
-        cases (itemsL lf ls).err <;> simp
 
 /-- **splitting at a line boundary**: the codes of `t₁ ++ [eol] ++ t₂` are the codes of `t₁`
     followed by the codes of `t₂` (when no line of `t₁` is rejected) -/
